@@ -301,6 +301,14 @@ func cmdCheck(args []string) {
 			results = append(results, verifyTable(l, cs, tb))
 		}
 	}
+	// a contract that names a loop the function no longer has is drift too
+	for _, r := range results {
+		for _, u := range r.Unsupported {
+			if strings.Contains(u, "contract names loop") || strings.Contains(u, "loop structure mismatch") {
+				driftHere = append(driftHere, r.Name()+" ("+u+")")
+			}
+		}
+	}
 	if len(driftHere) > 0 {
 		for _, d := range driftHere {
 			fmt.Printf("UNDECIDED contract-drift property=%s %s (function named by a contract no longer exists)\n", prop, d)
